@@ -43,20 +43,11 @@ theorem minorTensor_eq_det (m : Nat) (hm1 : 1 ≤ m) (get : Nat → Nat → R)
     rw [succAbove_val m i r hi r.isLt, succAbove_val m j c hj c.isLt]
   rw [this]
 
-end Ring
-
-section Field
-variable {K : Type} [Field K] [NumOrd K]
-
-/-- the element type's `==` (`PartialEq`) is equality -/
-def LawfulEq (K : Type) [NumOrd K] : Prop := ∀ a b : K, NumOrd.eq a b = true ↔ a = b
-
 /-- a row-major `n × n` buffer as a Mathlib matrix -/
-def matOfList (n : Nat) (l : List K) : _root_.Matrix (Fin n) (Fin n) K :=
+def matOfList (n : Nat) (l : List R) : _root_.Matrix (Fin n) (Fin n) R :=
   Matrix.of fun i j => l.getD ((j : Nat) + (i : Nat) * n) 0
 
-omit [NumOrd K] in
-theorem cofactorSign_eq (i j : Nat) : (cofactorSign i j : K) = (-1) ^ (i + j) := by
+theorem cofactorSign_eq (i j : Nat) : (cofactorSign i j : R) = (-1) ^ (i + j) := by
   unfold cofactorSign
   rw [neg_one_pow_eq_pow_mod_two (n := i + j)]
   rcases Nat.mod_two_eq_zero_or_one i with hi | hi <;>
@@ -71,10 +62,44 @@ theorem cofactorSign_eq (i j : Nat) : (cofactorSign i j : K) = (-1) ^ (i + j) :=
     simp [hi, hj, this]
 
 /-- the `(i, j)` minor of `A` with natural-number indices (0 outside the shape) -/
-noncomputable def minorVal {m : Nat} (A : _root_.Matrix (Fin (m + 1)) (Fin (m + 1)) K) (i j : Nat) : K :=
+noncomputable def minorVal {m : Nat} (A : _root_.Matrix (Fin (m + 1)) (Fin (m + 1)) R) (i j : Nat) : R :=
   if h : i < m + 1 ∧ j < m + 1 then
     (A.submatrix (Fin.succAbove ⟨i, h.1⟩) (Fin.succAbove ⟨j, h.2⟩)).det
   else 0
+
+/-- **The adjugate, over any commutative ring** (no division): the cofactor matrix the code
+    fills, transposed in place, is Mathlib's `adjugate` of the input. -/
+theorem adjugate_buffer (m : Nat) (hm1 : 1 ≤ m) (get : Nat → Nat → R) :
+    ∃ cof, cofactorMatrix (m + 1) (minorTensor ⟨m + 1, m + 1, get⟩) = .ok (some cof) ∧
+      cof.length = (m + 1) * (m + 1) ∧
+      matOfList (m + 1) (transposeSquare (m + 1) cof) = (sqMat (m + 1) get).adjugate := by
+  have hok := cofactorMatrix_ok (m + 1) (minorTensor ⟨m + 1, m + 1, get⟩)
+    (minorVal (sqMat (m + 1) get)) (by
+      intro i j hi hj
+      rw [minorTensor_eq_det m hm1 get i j hi hj]
+      simp [minorVal, hi, hj])
+  refine ⟨_, hok, by rw [List.length_map, indexPairs_length], ?_⟩
+  ext i j
+  simp only [matOfList, Matrix.of_apply]
+  rw [transposeSquare_spec (m + 1) _ (by rw [List.length_map, indexPairs_length]),
+    getD_map_indexPairs (m + 1) _ i j i.isLt j.isLt]
+  simp only
+  rw [getD_map_indexPairs (m + 1) _ j i j.isLt i.isLt, Matrix.adjugate_fin_succ_eq_det_submatrix,
+    cofactorSign_eq]
+  simp only
+  have : minorVal (sqMat (m + 1) get) j i
+      = ((sqMat (m + 1) get).submatrix j.succAbove i.succAbove).det := by
+    unfold minorVal
+    rw [dif_pos ⟨j.isLt, i.isLt⟩]
+  rw [this]
+
+end Ring
+
+section Field
+variable {K : Type} [Field K] [NumOrd K]
+
+/-- the element type's `==` (`PartialEq`) is equality -/
+def LawfulEq (K : Type) [NumOrd K] : Prop := ∀ a b : K, NumOrd.eq a b = true ↔ a = b
 
 open Classical in
 theorem inverseTensor_succ {ν : Type} [DecidableEq ν] [Inhabited ν] (names : ν × ν)
